@@ -216,6 +216,16 @@ def run_job(job, workdir):
         elif ob["status"] != "SUCCESS":
             unknown.append(f"obligation {ob['id']} status {ob['status']}")
         res["obligations"].append(ob)
+    # A dereference that fails ONLY as "dead object" (the sibling checks of the same expression - pointer NULL, invalid,
+    # outside object bounds - hold) is a reference bound to a temporary: C++ extends the temporary's lifetime, CBMC's front
+    # end does not.  That is a limit of the tool, not a defect of the code: the job is undecided (lower the declaration, L29).
+    fdesc = {(o.get("loc", ""), o["desc"]) for o in failed}
+    for o in failed:
+        mm = re.match(r"dereference failure: dead object in (.*)$", o["desc"])
+        if mm and not any((o.get("loc", ""), "dereference failure: %s in %s" % (k, mm.group(1))) in fdesc
+                          for k in ("pointer NULL", "pointer invalid", "pointer outside object bounds", "deallocated dynamic object")):
+            env_failed.append("CBMC front end: no lifetime extension for a temporary bound to a reference - %s (%s)" % (o["desc"], o.get("loc", "")))
+            break
     res["wall_s"] = round(time.time() - t0, 2)
     # obligations left UNKNOWN by cbmc (paths cut behind an earlier failed check) make the job
     # undecided only when nothing was decided false; a decided failure is reported as such
